@@ -203,3 +203,91 @@ func VerifC11_TwoInstances() {
 	verifrt.Assert(e4 == nil && e5 == nil && len(r2) == 1 && r2[0] == 0xd4d3d2d1, "the other instance's passive data segment is intact (memory.init copies it)")
 	verifrt.Cover("isolated")
 }
+
+// VerifC04_SharedTableCalls: function references placed in a table that two instances of ONE compiled module (and a third,
+// separately compiled importer) share, and a function imported directly: whichever instance makes the call and however
+// (call_indirect, return_call_indirect, call, return_call), the callee runs in the instance that DEFINED it - it reads and
+// writes that instance's global, and nobody else's - for all global values and arguments.
+func VerifC04_SharedTableCalls() {
+	ctx := context.Background()
+	w := newVerifWorld(ctx)
+	// T: exports a funcref table of two slots
+	t := &verifModule{tableMin: 2, exports: []verifExport{{name: "tab", kind: 1, index: 0}},
+		funcs: []verifFunc{{export: "nop", body: []byte{0x01}}}}
+	_, err := w.guest(ctx, t, "T", nil, false)
+	verifrt.Assert(err == nil, "table exporter accepted")
+	if err != nil {
+		return
+	}
+	// M: imports the table; global g; bump(x): g += x, returns g
+	m := &verifModule{tableMin: -1,
+		imports: []verifImport{{module: "T", name: "tab", kind: 1, desc: append([]byte{0x70}, vLimits(2, -1)...)}},
+		globals: []verifGlobal{{typ: vI32, mutable: true, init: []byte{0x41, 0x00}}},
+		funcs: []verifFunc{
+			{params: []byte{vI32}, results: []byte{vI32}, export: "bump", body: []byte{0x23, 0x00, 0x20, 0x00, 0x6a, 0x24, 0x00, 0x23, 0x00}},
+			{params: []byte{vI32}, export: "put", body: []byte{0x20, 0x00, 0xd2, 0x00, 0x26, 0x00}},
+			{params: []byte{vI32, vI32}, results: []byte{vI32}, export: "via_call", body: []byte{0x20, 0x01, 0x20, 0x00, 0x11, 0x00, 0x00}},
+			{params: []byte{vI32, vI32}, results: []byte{vI32}, export: "via_tail", body: []byte{0x20, 0x01, 0x20, 0x00, 0x13, 0x00, 0x00}},
+			{results: []byte{vI32}, export: "get", body: []byte{0x23, 0x00}},
+			{params: []byte{vI32}, export: "setg", body: []byte{0x20, 0x00, 0x24, 0x00}},
+		}}
+	a, err := w.guest(ctx, m, "a", nil, false)
+	verifrt.Assert(err == nil, "table importer accepted")
+	if err != nil {
+		return
+	}
+	b, err := verifInstantiateAgain(ctx, a, "b")
+	verifrt.Assert(err == nil, "second instance of the same compiled module")
+	if err != nil {
+		return
+	}
+	// N: separately compiled; imports the table and a.bump directly
+	n := &verifModule{tableMin: -1,
+		imports: []verifImport{
+			{module: "a", name: "bump", params: []byte{vI32}, results: []byte{vI32}},
+			{module: "T", name: "tab", kind: 1, desc: append([]byte{0x70}, vLimits(2, -1)...)}},
+		funcs: []verifFunc{
+			{params: []byte{vI32, vI32}, results: []byte{vI32}, export: "via_call", body: []byte{0x20, 0x01, 0x20, 0x00, 0x11, 0x00, 0x00}},
+			{params: []byte{vI32, vI32}, results: []byte{vI32}, export: "via_tail", body: []byte{0x20, 0x01, 0x20, 0x00, 0x13, 0x00, 0x00}},
+			{params: []byte{vI32, vI32}, results: []byte{vI32}, export: "direct_call", body: []byte{0x20, 0x01, 0x10, 0x00}},
+			{params: []byte{vI32, vI32}, results: []byte{vI32}, export: "direct_tail", body: []byte{0x20, 0x01, 0x12, 0x00}},
+		}}
+	c, err := w.guest(ctx, n, "c", nil, false)
+	verifrt.Assert(err == nil, "function and table importer accepted")
+	if err != nil {
+		return
+	}
+	ga, gb, x := verifrt.U32("ga"), verifrt.U32("gb"), verifrt.U32("x")
+	_, e1 := a.inst.ExportedFunction("setg").Call(ctx, uint64(ga))
+	_, e2 := b.inst.ExportedFunction("setg").Call(ctx, uint64(gb))
+	_, e3 := a.inst.ExportedFunction("put").Call(ctx, 0) // slot 0: a.bump
+	_, e4 := b.inst.ExportedFunction("put").Call(ctx, 1) // slot 1: b.bump
+	verifrt.Assert(e1 == nil && e2 == nil && e3 == nil && e4 == nil, "set-up calls run")
+	callers := []*verifInst{a, b, c}
+	caller := callers[verifrt.Choose("caller", 3)]
+	slot := uint32(verifrt.Choose("slot", 2))
+	how := []string{"via_call", "via_tail", "direct_call", "direct_tail"}[verifrt.Choose("how", 4)]
+	fn := caller.inst.ExportedFunction(how)
+	if fn == nil {
+		verifrt.Assume(false) // only the third module has the direct forms
+	}
+	ownerIsA := slot == 0 || how == "direct_call" || how == "direct_tail"
+	r, e := fn.Call(ctx, uint64(slot), uint64(x))
+	wantA, wantB := ga, gb
+	var want uint32
+	if ownerIsA {
+		wantA = ga + x
+		want = wantA
+	} else {
+		wantB = gb + x
+		want = wantB
+	}
+	verifrt.Assert(e == nil && len(r) == 1 && r[0] == uint64(want), "the callee computes with the global of the instance that defined it")
+	ra, e5 := a.inst.ExportedFunction("get").Call(ctx)
+	rb, e6 := b.inst.ExportedFunction("get").Call(ctx)
+	verifrt.Assert(e5 == nil && e6 == nil && len(ra) == 1 && len(rb) == 1, "globals readable")
+	if e5 == nil && e6 == nil {
+		verifrt.Assert(ra[0] == uint64(wantA) && rb[0] == uint64(wantB), "exactly the defining instance's global changed")
+	}
+	verifrt.Cover("called")
+}
